@@ -1864,6 +1864,9 @@ TAIL_ONLY = {'attr-map-out-of-order', 'illegal-owned-attr', 'own-attribute', 'il
 # the handles and "!n" directives of a script describe what the real library does; the CHECKER always tries the W3C behaviour
 # first and reports the deviation.  Remove an entry when the corresponding defect is fixed in /repo.
 KNOWN_DEVIATIONS = set(ALL_QUIRKS)
+# the same for the views of C14 (notes/C14.md)
+VIEW_QUIRKS = ('treewalker-previousNode-one-level', 'treewalker-hidden-node-filter-reject', 'range-selectNode-chardata-selects-contents')
+KNOWN_VIEW_DEVIATIONS = set(VIEW_QUIRKS)
 
 
 class Gen:
@@ -1872,7 +1875,7 @@ class Gen:
         self.nops = nops
         self.max_docs = max_docs
         self.m = Model()
-        self.m.quirk = set(KNOWN_DEVIATIONS)
+        self.m.quirk = set(KNOWN_DEVIATIONS) | (set(KNOWN_VIEW_DEVIATIONS) if views else set())
         self.ops = []            # ScriptOp (incl. kill pseudo-ops)
         self.next_h = 0
         self.stopped = None
@@ -3272,6 +3275,61 @@ def _tw_siblings(v, nxt, q):
             return None
 
 
+# ---- DOMTreeWalkerImpl::previousNode as implemented (quirk alternative 'treewalker-previousNode-one-level'): after stepping to the
+#      previous sibling it descends ONE level (getLastChild) instead of to the deepest last descendant
+def _x_parent(v, node):
+    if node is None or node is v.root:
+        return None
+    p = node.parent
+    if p is None:
+        return None
+    if v.accept(p, True) == FILTER_ACCEPT:
+        return p
+    return _x_parent(v, p)
+
+
+def _x_prevsib(v, node):
+    if node is None or node is v.root:
+        return None
+    nn = node.prev()
+    if nn is None:
+        nn = node.parent
+        if nn is None or node is v.root:
+            return None
+        if v.accept(nn, True) == FILTER_SKIP:
+            return _x_prevsib(v, nn)
+        return None
+    a = v.accept(nn, True)
+    if a == FILTER_ACCEPT:
+        return nn
+    if a == FILTER_SKIP:
+        c = _x_lastchild(v, nn)
+        if c is None and not nn.kids:
+            return _x_prevsib(v, nn)
+        return c
+    return _x_prevsib(v, nn)
+
+
+def _x_lastchild(v, node):
+    if node is None or not node.kids:
+        return None
+    nn = node.kids[-1]
+    a = v.accept(nn, True)
+    if a == FILTER_ACCEPT:
+        return nn
+    if a == FILTER_SKIP and nn.kids:
+        return _x_lastchild(v, nn)
+    return _x_prevsib(v, nn)
+
+
+def _x_previous_node(v):
+    node = _x_prevsib(v, v.cur)
+    if node is None:
+        return _x_parent(v, v.cur)
+    lc = _x_lastchild(v, node)
+    return lc if lc is not None else node
+
+
 def _op_tw(self, want, vid, what, *a):
     e = Exp()
     v = _view(self, vid, 'W')
@@ -3291,7 +3349,8 @@ def _op_tw(self, want, vid, what, *a):
         return e
     if not _tw_inside(v):
         raise Undecided('current node outside the root of the TreeWalker')
-    # are hidden-by-whatToShow nodes that the filter would REJECT around?  (deviation class)
+    if v.fk and (v.show & 0xFFF) != 0xFFF:
+        e.quirks.append('treewalker-hidden-node-filter-reject')
     res = None
     if what == 'parent':
         node = v.cur
@@ -3333,7 +3392,11 @@ def _op_tw(self, want, vid, what, *a):
             if r == FILTER_ACCEPT:
                 res = node
                 break
+    elif what == 'prev' and 'treewalker-previousNode-one-level' in self.quirk:
+        e.quirks.append('treewalker-previousNode-one-level')
+        res = _x_previous_node(v)
     elif what == 'prev':
+        e.quirks.append('treewalker-previousNode-one-level')
         node = v.cur
         while node is not v.root:
             sib = node.prev()
@@ -3356,8 +3419,6 @@ def _op_tw(self, want, vid, what, *a):
             if v.accept(node, q) == FILTER_ACCEPT:
                 res = node
                 break
-        if res is not None and 'treewalker-previousNode-one-level' in self.quirk:
-            pass
     else:
         raise Undecided('walker op ' + what)
     if res is not None:
